@@ -39,10 +39,19 @@ def gen_cases(ctx):
     cases = []
     # corpus: witness of the known finding region first
     wit = {"name": "T", "tparams": [], "typedoc": None, "members": [
+        {"k": "e", "ptr": False, "new": False, "pkg": None,
+         "decl": {"name": "A", "tparams": [], "typedoc": None, "members": [
+             {"k": "f", "name": "x", "type": "int", "tagskip": True, "new": False, "def": None},
+             {"k": "e", "ptr": False, "new": False, "pkg": None,
+              "decl": {"name": "B", "tparams": [], "typedoc": None, "members": [
+                  {"k": "f", "name": "x", "type": "int", "new": False, "def": None}]}}]}}]}
+    # the repaired shape (1100e1f): a left-out TOP-level field hides the promoted namesake
+    fixed = {"name": "T", "tparams": [], "typedoc": None, "members": [
         {"k": "f", "name": "name", "type": "int32", "tagskip": True, "new": False, "def": None},
         {"k": "e", "ptr": True, "new": False, "pkg": None,
          "decl": {"name": "Core", "tparams": [], "typedoc": None, "members": [
              {"k": "f", "name": "name", "type": "int", "new": False, "def": None}]}}]}
+    cases.append(make_case("w1", fixed))
     cases.append(make_case("w0", wit))
     n = ctx.n(400, 4000)
     for i in range(n):
